@@ -34,8 +34,7 @@ RULE = ("case kinds: dirty = 0-4 earlier runs (other tables, chunk sizes, prefix
         "with the same run in a clean directory (result files byte for byte; no new file but result files; none of the run's "
         "chunk / level names left; every other file below dest_dir and the input files byte-identical). The observed and the earlier "
         "runs vary file_root ('' / 'r.' / 'exp.1.' / 'coll0.'), the input suffix (.pin / .tab / .csv / .parquet: it names chunk and "
-        "level files), prefixes (collN and dotted / level-like ones), descs, append_to_output_file (result files prepared by the caller: "
-        "dirty result = prepared bytes + clean bytes; outside the theorems' guard run_okp, compared with the executable model only), "
+        "level files), prefixes (collN and dotted / level-like ones), descs, append_to_output_file (see below), "
         "dest_dir absolute / relative to the working directory / '.', input files inside dest_dir, 1 or 3 workers; a sweep over every "
         "layout of 2 (all 9) and 3 (sample) collection prefixes, half of it under a file_root / other suffix / append. Protein level: "
         "one collection with decoys is modelled (also with prefix, file_root, .tab, relative dest_dir); two collections or "
@@ -50,6 +49,20 @@ RULE = ("case kinds: dirty = 0-4 earlier runs (other tables, chunk sizes, prefix
         "rollup = mokapot.brew_rollup.main on the result files of a real run, destination (= or != source) holding temp.<level>s / "
         "result files of earlier rollups (completed / failed / killed), garbage and near misses: property alone (its temp files "
         "must be gone after a successful run: repaired in /repo, 2c987dd). "
+        "append_to_output_file=True (guard run_oka of Proofs/FsAppendP.v; 12 % of the option-varied dirty cases, a quarter of the "
+        "layout sweep, and the stream append-modes, which takes the hypotheses of the append-mode theorems one by one — with 1-3 "
+        "collections, every prefix layout incl. one prefix used twice, every third group with a protein level — next to stale chunk / "
+        "level files and result files of foreign names): rows = every own result file present with header and 0..n rows, empty = all "
+        "present, header only, earlier-run = the result files are what a completed earlier run of the same tables with another chunk "
+        "size / the other de-duplication setting left (these three: results_present, covered by C09_append_refines_effect(_proteins), "
+        "C09_append_prefix, C09_append_from_empty_result_files), missing = one own result file absent (the run must succeed and create "
+        "it without header: C09_run_refines_effect_any_directory, C09_append_succeeds_from_any_directory, C09_append_files). Model side: "
+        "fs_run with fg_append = true on the parsed directory, as for every dirty case (the theorems say that this is run_effect_a / "
+        "run_effect_p and file_after old own_rows). Property side: result file = bytes before the run + bytes the same call writes in an "
+        "empty directory, and, when no prefix is used twice (pfx_distinct; C09_append_duplicate_prefix shows why), = bytes before the "
+        "run + the rows (header line apart) the call WITHOUT appending writes in an empty directory; chunk / level files gone, every "
+        "other file byte-identical (C09_append_no_intermediates, C09_append_untouched, C09_append_touches_own_result_files_only; "
+        "C09_append_depends_only_on_result_files: the stale files around never matter). "
         "crash = one run killed before operation k for every k, directory compared with the model's exec_crash k; verify = the CLI's "
         "PIN verify step with / without a pre-existing <pin>.tsv (PINs of 1-6 PSMs, PINs without PSMs, and 2-3 PINs in one call with "
         "leftovers next to some, names with dots / blanks, paths relative to the working directory); strace = system-call trace of a "
@@ -62,7 +75,7 @@ ASSUMPTIONS = [
     "PEP estimation is replaced by a constant during these runs (oracle of C06)",
     "the input files live outside the destination directory or have names that are none of the run's own (in<k><suffix>, <stem>.pin with a stem that is not a level name): an input called psms.pin inside dest_dir is overwritten by the level file of that name — not a matter of leftovers, see reviews/C09.md",
     "leftovers are regular files (no directories, symbolic links or unwritable files under the run's own names); the checks run as root, so permissions are not exercised",
-    "append_to_output_file=True: the result files the caller prepared are inputs of the run, not leftovers",
+    "append_to_output_file=True: the result files the caller prepared are inputs of the run, not leftovers (theorems C09_append_*: the results depend on the directory through them only); a prepared result file carries the header of the observed run's own option set (a header of other columns would make the appended rows unreadable as a table — for the harness' parser, not for mokapot)",
 ]
 TRUSTED_EXTRA = ["POSIX semantics of open(O_TRUNC) / open(O_APPEND) / unlink / rename (oracle)",
                  "pandas / pyarrow readers and writers of intermediate and result files (oracle)"]
@@ -403,6 +416,22 @@ def _rerun(rng, obs):
     return r
 
 
+def _earlier_complete(rng, obs):
+    """a completed earlier run of the observed run's own tables and names WITHOUT appending, with another chunk size and the
+    other de-duplication setting (decoys on: its result files are a superset of the observed run's): what it leaves is what
+    an append-mode run then appends to"""
+    import copy
+    r = copy.deepcopy(obs)
+    r["append"] = False
+    r["workers"] = rng.choice([1, 1, 3])
+    r["end"] = "complete"
+    r["chunk"] = max(1, rng.choice([1, 2, 3, obs["chunk"] + 1, obs["chunk"] - 1]))
+    if not obs.get("fasta"):
+        r["dedup"] = not obs["dedup"]
+    r["decoys"] = True
+    return r
+
+
 def gen(ctx):
     cases = []
     # ---- protein level on: the picked-protein step reads the peptide-level file and writes a protein-level file
@@ -585,6 +614,37 @@ def gen(ctx):
             junk.append({"kind": "append-base", "index": 0, "pfx": None, "seed": rng.randint(0, 10 ** 6)})
         cases.append({"fn": "dirty", "runs": [_rerun(rng, obs)] if k % 3 == 0 else [], "observed": obs, "junk": junk,
                       "tags": ["dirty", "small-tables", "junk=%d" % len(junk)] + sorted(set("rows:" + x for x in kinds)) + _option_tags(obs)})
+    # ---- append_to_output_file=True, the hypotheses of the append-mode theorems (Props/C09.v, C09_append_*) one by one:
+    #      rows = every own result file present, holding 0..n rows; empty = all present, header only; missing = one of them
+    #      absent; earlier-run = they are what a completed earlier run of the same tables with another chunk size and the
+    #      other de-duplication setting left.  Every third group with a protein level
+    rng = ctx.sub("append-modes")
+    modes = ["rows", "empty", "missing", "earlier-run"]
+    for k in range(48 if ctx.thorough else 12):
+        mode = modes[k % 4]
+        prot = (k // 4) % 3 == 2
+        if prot:
+            obs = _gen_prot_run(rng, 8, vary=True)
+            while len(obs["files"]) > 1 or not obs["decoys"]:
+                obs = _gen_prot_run(rng, 8, vary=True)
+        else:
+            obs = _gen_run(rng, 8, False, observed=True)
+        obs["append"] = True
+        obs["workers"] = 1
+        runs = []
+        junk = [{"kind": rng.choice(["chunk", "level", "near-result", "other-root", "result"]), "index": rng.choice([0, 1, 2, 5]),
+                 "pfx": rng.choice([None] + obs["prefixes"]), "seed": rng.randint(0, 10 ** 6), "variant": rng.randint(0, 50)}
+                for _ in range(rng.choice([1, 2, 3]))]
+        if mode == "earlier-run":
+            junk = [j for j in junk if j["kind"] != "result"]
+            runs.append(_earlier_complete(rng, obs))
+        else:
+            junk.append({"kind": "append-base", "mode": mode, "index": 0, "pfx": None, "seed": rng.randint(0, 10 ** 6),
+                         "variant": rng.randint(0, 50)})
+        cases.append({"fn": "dirty", "runs": runs, "observed": obs, "junk": junk,
+                      "tags": ["dirty", "append-modes", "append:" + mode, "junk=%d" % len(junk),
+                               "ncoll=%d" % len(obs["files"]), "pfx-distinct=%s" % _pfx_distinct(obs)]
+                              + (["proteins"] if prot else []) + _option_tags(obs)})
     # ---- kill points of one run, every k
     rng = ctx.sub("crash")
     for k in range(10 if ctx.thorough else 3):
@@ -1002,12 +1062,24 @@ class Registry:
         return {r["code"]: pid for pid, r in self.rows.items()}
 
 
-def _parse_table(path):
-    """-> list of (psm id, score or None, q or None); [] if the file cannot be parsed as a PSM table"""
+def _result_cols(fn, obs):
+    """the columns of a result file of the run (what `initialize` writes as its header)"""
+    if fn.endswith(".proteins"):
+        return ["mokapot protein group", "best peptide", "stripped sequence", "score", "q-value", "posterior_error_prob"]
+    return ["PSMId", "peptide"] + (list(obs["levels"]) if obs["rollup"] else []) + ["score", "q-value", "posterior_error_prob", "proteinIds"]
+
+
+def _parse_table(path, names=None):
+    """-> list of (psm id, score or None, q or None); None if the file cannot be parsed as a PSM table.
+    names: the file has no header line (a result file that append_to_output_file=True created by its first append)"""
     import pandas as pd
     try:
         if str(path).endswith(".parquet"):
             df = pd.read_parquet(path)
+        elif names is not None:
+            if os.path.getsize(path) == 0:
+                return []
+            df = pd.read_csv(path, sep="\t", float_precision="round_trip", header=None, names=list(names))
         else:
             df = pd.read_csv(path, sep="\t", float_precision="round_trip")
     except Exception:
@@ -1016,18 +1088,21 @@ def _parse_table(path):
     if idc is None:
         return None
     out = []
-    for _, r in df.iterrows():
-        sc = float(r["score"]) if "score" in df.columns else None
-        qv = Fraction(float(r["q-value"])) if "q-value" in df.columns else None
-        out.append((str(r[idc]), sc, qv))
+    try:
+        for _, r in df.iterrows():
+            sc = float(r["score"]) if "score" in df.columns else None
+            qv = Fraction(float(r["q-value"])) if "q-value" in df.columns else None
+            out.append((str(r[idc]), sc, qv))
+    except (ValueError, TypeError, OverflowError):
+        return None          # not a table of PSMs (a header line where rows were expected, text in a number column, ...)
     return out
 
 
-def _snapshot(out, obs):
-    """directory -> {file name: (structured name, parsed rows or None)}"""
+def _snapshot(out, obs, headerless=()):
+    """directory -> {file name: (structured name, parsed rows or None)}; headerless: result files written without header"""
     snap = {}
     for fn in sorted(os.listdir(out)):
-        snap[fn] = (struct_name(fn, obs), _parse_table(Path(out) / fn))
+        snap[fn] = (struct_name(fn, obs), _parse_table(Path(out) / fn, _result_cols(fn, obs) if fn in headerless else None))
     return snap
 
 
@@ -1122,7 +1197,7 @@ def _prot_tables(obs, reg, clean_out):
     prow = []
     pre = _root(obs) + ((obs["prefixes"][0] + ".") if obs["prefixes"][0] else "")
     for fn, flag in ((pre + "targets.proteins", True), (pre + "decoys.proteins", False)):
-        rws = _parse_table(Path(clean_out) / fn)
+        rws = _parse_table(Path(clean_out) / fn, _result_cols(fn, obs) if obs.get("append") else None)
         if rws is None:
             return None
         for name, sc, qv in rws:
@@ -1253,9 +1328,24 @@ def _write_junk(junk, out, obs, reg):
                      "mokapot.model_fold-1.pkl" if root else "zz.mokapot.model_fold-1.pkl", f"{root}mokapot.model_fold-0.pkl"]
             (Path(out) / names[var % len(names)]).write_bytes(b"\x80\x04a model of another run" + bytes([var]))
         elif kind == "append-base":
-            # append_to_output_file: the caller has created the result files (header, possibly rows of earlier collections)
-            for k, fn in enumerate(sorted(_own_results(obs))):
-                _result_frame(df, obs, n=(k + var) % (len(df) + 1)).to_csv(Path(out) / fn, sep="\t", index=False)
+            # append_to_output_file: the caller has created the result files (header, possibly rows of earlier collections).
+            # mode rows: 0..n rows each; empty: header only, all of them; missing: one of them is not there at all
+            mode = j.get("mode", "rows")
+            own = sorted(_own_results(obs))
+            for k, fn in enumerate(own):
+                if mode == "missing" and k == var % len(own):
+                    if (Path(out) / fn).exists():
+                        (Path(out) / fn).unlink()
+                    continue
+                n = 0 if mode == "empty" else (k + var) % (len(df) + 1)
+                if fn.endswith(".proteins"):
+                    d2 = df.iloc[:n]
+                    fr = pd.DataFrame({"mokapot protein group": ["oldgroup%d_%d" % (j["seed"] % 1000, i) for i in range(len(d2))],
+                                       "best peptide": d2["Peptide"], "stripped sequence": d2["Peptide"], "score": d2["score"],
+                                       "q-value": [0.25] * len(d2), "posterior_error_prob": [0.0] * len(d2)})
+                else:
+                    fr = _result_frame(df, obs, n=n)
+                fr.to_csv(Path(out) / fn, sep="\t", index=False)
         else:
             (Path(out) / ("notes%d.txt" % idx)).write_text("unrelated\n")
 
@@ -1371,7 +1461,9 @@ def _run_dirty(c):
         tap = IoTap(out)
         info = {}
         end = _exec_run(obs, ind, out, tap, tag="inobs", info=info)
-        after = _snapshot(out, obs)
+        # append mode: an own result file that was not there is created by the first append, without header
+        created = [fn for fn in _own_results(obs) if fn not in before] if obs.get("append") else []
+        after = _snapshot(out, obs, headerless=created)
         after_tree = _tree(out)
         dirty_bytes = _results_bytes(out, obs)
         # the same run in a clean directory
@@ -1383,8 +1475,18 @@ def _run_dirty(c):
         end2 = _exec_run(obs, ind2, out2, IoTap(out2), tag="inobs", info=info2)
         clean_bytes = _results_bytes(out2, obs)
         clean_listing = sorted(os.listdir(out2))
+        noappend_bytes, end3 = None, None
+        if obs.get("append"):
+            # C09_append_prefix: what the same run WITHOUT appending writes in an empty directory
+            out3 = Path(d) / "noappend"
+            out3.mkdir()
+            ind3 = Path(d) / "in_noappend"
+            ind3.mkdir()
+            end3 = _exec_run(dict(obs, append=False), ind3, out3, IoTap(out3), tag="inobs")
+            noappend_bytes = _results_bytes(out3, obs)
         impl = {"end": end, "earlier_ends": ends, "before": sorted(before.keys()),
                 "dirty_bytes": dirty_bytes, "clean_bytes": clean_bytes, "base_bytes": base_bytes, "clean_end": end2,
+                "noappend_bytes": noappend_bytes, "noappend_end": end3,
                 "clean_listing": clean_listing, "after_files": sorted(after.keys()),
                 "bystanders_changed": _changed_bystanders(before_tree, after_tree, own),
                 "inputs_changed": info.get("inputs_changed", []), "db": info.get("db"), "clean_db": info2.get("db")}
@@ -2092,6 +2194,19 @@ def nontrivial(c):
 
 
 # ---------------------------------------------------------------------------- the property itself
+def _pfx_distinct(obs):
+    """no prefix other than None is used by two collections (pfx_distinct of Proofs/FsAppendP.v)"""
+    ps = [p for p in obs["prefixes"] if p]
+    return len(ps) == len(set(ps))
+
+
+def _strip_header(text):
+    """the rows of a result file: everything after the header line"""
+    if not text:
+        return ""
+    return text.split("\n", 1)[1] if "\n" in text else ""
+
+
 def oracle(c, i):
     if i[0] != "ok":
         return None          # a crash of the harness is not a failing input
@@ -2108,6 +2223,16 @@ def oracle(c, i):
             # append_to_output_file: the result files the caller prepared are an input; the run adds to them exactly what it
             # writes (without header) in a clean directory
             want = {k: (r["base_bytes"].get(k) or "") + (v or "") for k, v in r["clean_bytes"].items()}
+            if r.get("noappend_end") is not None and _pfx_distinct(obs):
+                # C09_append_prefix / C09_append_files: previous content, then the rows (the header line apart) the run
+                # without appending writes in an empty directory
+                if r["noappend_end"] != "complete":
+                    return f"the run succeeds when appending but ends '{r['noappend_end']}' without appending in an empty directory"
+                want2 = {k: (r["base_bytes"].get(k) or "") + _strip_header(v) for k, v in r["noappend_bytes"].items()}
+                if r["dirty_bytes"] != want2:
+                    bad = sorted(k for k in set(r["dirty_bytes"]) | set(want2) if r["dirty_bytes"].get(k) != want2.get(k))
+                    return (f"append_to_output_file: result files {bad} are not their previous content followed by the rows "
+                            f"the run without appending writes in an empty directory (before the run: {r['before']})")
         elif obs.get("sqlite"):
             want = {k: None for k in r["clean_bytes"]}
             if r["clean_bytes"] != want:
